@@ -484,6 +484,12 @@ class NP:
             lo, hi = pyval(args[0]), pyval(args[1])
             n = z_ite(cmpop('>', hi, lo), binop('-', hi, lo), 0)
             return STensor((n,), lambda i: binop('+', lo, i), 'int')
+        if len(args) == 3 and all(V.is_int_like(x) for x in args) and not is_sym(args[2]) and args[2] in (1, -1):
+            lo, hi, step = pyval(args[0]), pyval(args[1]), args[2]
+            if step == 1:
+                return self.f_arange(interp, line, lo, hi)
+            n = z_ite(cmpop('>', lo, hi), binop('-', lo, hi), 0)
+            return STensor((n,), lambda i: binop('-', lo, i), 'int')
         if len(args) == 2 and (V.is_real_like(args[0]) or V.is_real_like(args[1])):
             args = (args[0], args[1], 1)
         if len(args) == 3:
@@ -932,7 +938,40 @@ class NP:
                     tot = term if tot is None else binop('+', tot, term)
                 return tot
             return STensor((A.shape[0], A.shape[1], B.shape[2], B.shape[1]), fn2, 'real')
-        raise Unsupported(f'einsum {spec!r}')
+        return self._einsum_generic(interp, spec, ts)
+
+    def _einsum_generic(self, interp, spec, ts):
+        import itertools
+        if '->' not in spec or '.' in spec:
+            raise Unsupported(f'einsum {spec!r}')
+        lhs, out = spec.replace(' ', '').split('->')
+        ins = lhs.split(',')
+        if len(ins) != len(ts) or any(len(a) != t.ndim for a, t in zip(ins, ts)):
+            raise Unsupported(f'einsum {spec!r}: operand ranks')
+        dim = {}
+        for a, t in zip(ins, ts):
+            for ch, d in zip(a, t.shape):
+                if ch in dim and V.dim_eq(dim[ch], d) is False:
+                    raise Unsupported('einsum dimension mismatch')
+                dim.setdefault(ch, d)
+        contr = [ch for ch in dim if ch not in out]
+        if any(is_sym(dim[ch]) for ch in contr):
+            raise Unsupported('einsum with a symbolic contraction length')
+        interp.ctx.use(f"numpy.einsum('{spec}'): sum over the repeated indices")
+        fns = [t.fn for t in ts]
+
+        def fn(*idx):
+            env = dict(zip(out, idx))
+            tot = None
+            for combo in itertools.product(*[range(dim[ch]) for ch in contr]):
+                env.update(zip(contr, combo))
+                term = None
+                for a, f in zip(ins, fns):
+                    v = f(*[env[ch] for ch in a])
+                    term = v if term is None else binop('*', term, v)
+                tot = term if tot is None else binop('+', tot, term)
+            return tot
+        return STensor(tuple(dim[ch] for ch in out), fn, 'real')
 
     def f_fliplr(self, interp, line, a):
         a = as_tensor(a)
